@@ -37,8 +37,96 @@ def run(chk, tier, overlays=()):
              "(entry guard verified on each such callee), or (C) is tabled as visiting every declared constraint on purpose")
     self_guard(chk, P)
     loops(chk, P)
+    power(chk, P)
     chk.floor("GUARD", 38)
+    chk.floor("POWER", 8)
     chk.assumptions += ["constraint satisfaction, the multiplier solve, Newton's law and power are numerical and not decided (DESIGN section 3, C08)"]
+
+
+# accessors by the frame their result is expressed in (from their documentation: "measured and expressed in the Ancestor (A) frame" in
+# ConstraintImpl.h; V_GB in SimbodyMatterSubsystem / MobilizedBody)
+GROUND_VELOCITY = re.compile(r"^(SimTK::)?(SimbodyMatterSubsystemRep|SimbodyMatterSubsystem|MobilizedBody|MobilizedBodyImpl)::getBodyVelocity$")
+ANCESTOR_VELOCITY = re.compile(r"^(SimTK::)?ConstraintImpl::(getBody\w*Velocity\w*|get\w*VelocityFromState)$")
+
+
+def power(chk, P):
+    chk.rule("POWER", "Constraint::calcPower is -(sum F_G[b] . V_G[b] + sum f[c] * u[c]): each body term pairs entry b of the constraint's Ground-frame body forces "
+             "(getConstrainedBodyForcesInGFromState) with the Ground-frame spatial velocity of the mobilized body of that same constrained body (a matter-subsystem / MobilizedBody "
+             "getBodyVelocity of getMobilizedBodyIndexOfConstrainedBody(b) -- never an Ancestor-frame ConstraintImpl accessor), each mobility term pairs entry c of the mobility "
+             "forces with u[getUIndexOfConstrainedU(state, c)] of the same c; both loops run over the whole force array; terms are subtracted; calcConstraintPower adds "
+             "calcPower of each (enabled) constraint")
+    f = (P.fns_named("SimTK::Constraint::calcPower") or [None])[0]
+    chk.require(f is not None, "anchor vanished: Constraint::calcPower")
+    decls = {d["var"]: d for _, _, d in f.events(lambda d: d["k"] == "decl")}
+
+    def src(v, depth=3):
+        """call names in the (transitive) initialiser of local v"""
+        out, todo, seen = [], [v], set()
+        while todo and depth > 0:
+            x = todo.pop()
+            if x in seen or x not in decls or decls[x].get("init") is None:
+                continue
+            seen.add(x)
+            out += [c for c in sx_find(decls[x]["init"], lambda y: y[0] == "call")]
+            todo += [y[1] for y in sx_find(decls[x]["init"], lambda y: y[0] == "var")]
+        return out
+    terms = [e for _, _, e in f.events(lambda e: e["k"] == "assign" and var_of(e["lhs"]) is not None and e["op"] in ("-=", "+=") and e.get("rhs") is not None and
+                                       isinstance(e["rhs"], list) and e["rhs"][0] in ("op", "opc") and e["rhs"][1] == "*")]
+    chk.shape(len(terms) == 2, "POWER", "two-terms", f.loc, "a body-force term and a mobility-force term (found %d)" % len(terms))
+    for e in terms:
+        site = "%s:%d" % (f.file, e["line"])
+        lhs, rhs = e["rhs"][2], e["rhs"][3]
+        farr = sx_find(lhs, lambda y: y[0] == "opc" and y[1] == "[]")
+        if not farr:
+            continue
+        fv, fi = var_of(farr[0][2]), var_of(farr[0][3])
+        fsrc = [c[1].split("::")[-1] for c in src(fv)]
+        kind = "body" if any("BodyForces" in n for n in fsrc) else "mobility" if any("MobilityForces" in n for n in fsrc) else "?"
+        chk.judge(e["op"] == "-=", "POWER", kind + ":subtracted", site, "power delivered BY the constraint is minus force dot velocity")
+        if kind == "body":
+            chk.judge(any(n == "getConstrainedBodyForcesInGFromState" for n in fsrc), "POWER", "body:forces-in-Ground", site, "body forces come from %s" % fsrc)
+            vv = var_of(rhs)
+            vs = src(vv) if vv else sx_find(rhs, lambda y: y[0] == "call")
+            names = [c[1] for c in vs]
+            anc = [n for n in names if ANCESTOR_VELOCITY.match(n)]
+            grd = [c for c in vs if GROUND_VELOCITY.match(c[1])]
+            if anc:
+                chk.violation("POWER", "body:velocity-in-Ground", site, "Ground-frame forces are dotted with %s, which is measured and expressed in the constraint's Ancestor frame" % anc[0])
+            else:
+                chk.shape(bool(grd), "POWER", "body:velocity-in-Ground", site, "velocity taken from %s" % ([n.split("::")[-1] for n in names] or sx_str(rhs)))
+            # same constrained body: the mobilized-body index is looked up from the loop index used for the force
+            ok = False
+            for c in grd:
+                for a in c[3]:
+                    for d in src(var_of(a)) if var_of(a) else []:
+                        if d[1].endswith("::getMobilizedBodyIndexOfConstrainedBody") and any(var_of(x) == fi for x in d[3]):
+                            ok = True
+            if grd:
+                chk.judge(ok, "POWER", "body:same-constrained-body", site, "the velocity is that of getMobilizedBodyIndexOfConstrainedBody(%s), the index of the force" % fi)
+        elif kind == "mobility":
+            uarr = sx_find(rhs, lambda y: y[0] == "opc" and y[1] == "[]")
+            uv, ui = (var_of(uarr[0][2]), var_of(uarr[0][3])) if uarr else (None, None)
+            if ui is None and uarr:
+                c = sx_find(uarr[0][3], lambda y: y[0] == "var")
+                ui = c[0][1] if c else None
+            chk.judge(bool(uv) and any(c[1].endswith("::getU") for c in src(uv)), "POWER", "mobility:speeds-from-getU", site, "generalized speeds come from getU(state)")
+            chk.judge(bool(ui) and any(c[1].endswith("::getUIndexOfConstrainedU") and any(var_of(x) == fi for x in c[3]) for c in src(ui)), "POWER", "mobility:same-constrained-u", site,
+                      "u is indexed by getUIndexOfConstrainedU(state, %s), the index of the force" % fi)
+        # loop bound: size of the force array
+        hs = [h for h, body in f.loops().items() if any(ev is e for bb in body for ev in f.blocks[bb]["ev"])]
+        okb = any(f.blocks[h].get("term") and f.blocks[h]["term"].get("cond") is not None and
+                  sx_find(f.blocks[h]["term"]["cond"], lambda y: y[0] == "call" and y[1].endswith("::size") and var_of(y[2]) == fv) for h in hs)
+        chk.judge(okb, "POWER", kind + ":all-entries", site, "the loop runs over every entry of %s" % fv)
+    rets = [e for _, _, e in f.events(lambda e: e["k"] == "ret")]
+    acc = {var_of(e["lhs"]) for e in terms}
+    chk.judge(len(rets) == 1 and len(acc) == 1 and var_of(rets[0].get("val")) in acc, "POWER", "returns-the-sum", f.loc, "the accumulated sum is returned")
+    g = [x for x in P.all_fns() if x.name.endswith("SimbodyMatterSubsystemRep::calcConstraintPower")]
+    chk.require(bool(g), "anchor vanished: SimbodyMatterSubsystemRep::calcConstraintPower")
+    for x in g:
+        cs = [e for _, _, e in x.calls() if str(e.get("fn", "")).endswith("Constraint::calcPower")]
+        adds = [e for _, _, e in x.events(lambda e: e["k"] == "assign" and e["op"] == "+=" and e.get("rhs") is not None and
+                                          bool(sx_find(e["rhs"], lambda y: y[0] == "call" and y[1].endswith("Constraint::calcPower"))))]
+        chk.judge(len(cs) == 1 and len(adds) == 1, "POWER", "calcConstraintPower:sums-calcPower", x.loc, "total power adds Constraint::calcPower of each constraint visited")
 
 
 def self_guard(chk, P):
@@ -132,6 +220,11 @@ def loops(chk, P):
 _R = "Simbody/src/SimbodyMatterSubsystemRep.cpp"
 _C = "Simbody/src/Constraint.cpp"
 MUTATIONS = [
+    dict(name="seeded (sub-agent): calcPower dots Ground-frame forces with the Ancestor-frame velocity accessor", arm=True, file=_C,
+         old="        const MobilizedBodyIndex mbx = \n            impl.getMobilizedBodyIndexOfConstrainedBody(cbx);\n        const SpatialVec& V_GB = matter.getBodyVelocity(state, mbx);\n        power -= ~bodyF_G[cbx] * V_GB;",
+         new="        const SpatialVec& V_B = impl.getBodyVelocityFromState(state, cbx);\n        power -= ~bodyF_G[cbx] * V_B;", expect="POWER:body:velocity-in-Ground"),
+    dict(name="mobility power uses the constrained-u index as a global u index", file=_C,
+         old="        const UIndex ux = impl.getUIndexOfConstrainedU(state, cux);\n        power -= mobilityF[cux] * u[ux];", new="        power -= mobilityF[cux] * u[cux];", expect="POWER:mobility:same-constrained-u"),
     dict(name="calcConstraintPower sums disabled constraints too", arm=True, file=_R,
          old="        if (isConstraintDisabled(s,cx))\n            continue;\n\n        const Constraint& constraint = getConstraint(cx);\n        power += constraint.calcPower(s);", new="        const Constraint& constraint = getConstraint(cx);\n        power += constraint.calcPower(s);", expect="GUARD:calcConstraintPower"),
     dict(name="ConstraintImpl::realizePosition runs its hook for disabled constraints", arm=True, file=_C,
